@@ -317,6 +317,48 @@ theorem hascache_sound (env : Env) (ops : List Op) (hs : SafeAdds env Sys.init o
     Handle.inNovel ((Sys.init.run env ops).hs i) a = true ∨ Persisted (Sys.init.run env ops) a :=
   ((rinv_run env _ (rinv_init env) ops hs).hs i).cache a ha
 
+/-! ### conjoin: the step-level closure fact (the run-level induction still excludes conjoin, see design/C07.md) -/
+
+/-- the manifest a conjoin writes names exactly the chunks the manifest it rewrites named: the conjoinees (all named by
+`cur`) are replaced by their concatenation -/
+theorem conjoin_same_chunks (cs : List Table) (cur : Contents) (hsub : ∀ t ∈ cs, t ∈ cur.specs) (a : Addr) :
+    (∃ t ∈ (conjoinContents cs (conjoinedTable cs) cur).specs, a ∈ t) ↔ ∃ t ∈ cur.specs, a ∈ t := by
+  simp only [conjoinContents, conjoinedTable, List.mem_append, List.mem_filter, List.mem_singleton]
+  constructor
+  · rintro ⟨t, (⟨ht, _⟩ | rfl), ha⟩
+    · exact ⟨t, ht, ha⟩
+    · obtain ⟨u, hu, hau⟩ := List.mem_flatten.1 ha
+      exact ⟨u, hsub u hu, hau⟩
+  · rintro ⟨t, ht, ha⟩
+    by_cases hc : t ∈ cs
+    · exact ⟨cs.flatten, Or.inr rfl, List.mem_flatten.2 ⟨t, hc, ha⟩⟩
+    · exact ⟨t, Or.inl ⟨ht, by simpa using hc⟩, ha⟩
+
+/-- `conjoin_step_preserves_closure`: when a conjoin lands on a directory whose manifest is `cur` (the attempt that
+succeeds is always made against the manifest that is on disk), the persisted chunk set is unchanged — so it stays
+closed under references, and the (unchanged) root stays in it. -/
+theorem conjoin_step_preserves_closure (env : Env) (d : Disk) (cs : List Table) (cur : Contents)
+    (hm : d.manifest = some cur) (hsub : ∀ t ∈ cs, t ∈ cur.specs)
+    (hclosed : Closed env (fun a => d.persisted a = true)) :
+    (∀ a, ({ d with manifest := some (conjoinContents cs (conjoinedTable cs) cur) } : Disk).persisted a = d.persisted a) ∧
+    Closed env (fun a => ({ d with manifest := some (conjoinContents cs (conjoinedTable cs) cur) } : Disk).persisted a = true) ∧
+    ({ d with manifest := some (conjoinContents cs (conjoinedTable cs) cur) } : Disk).root = d.root := by
+  have key : ∀ a, ({ d with manifest := some (conjoinContents cs (conjoinedTable cs) cur) } : Disk).persisted a = d.persisted a := by
+    intro a
+    have h := conjoin_same_chunks cs cur hsub a
+    have l : (({ d with manifest := some (conjoinContents cs (conjoinedTable cs) cur) } : Disk).persisted a = true) ↔
+        ∃ t ∈ (conjoinContents cs (conjoinedTable cs) cur).specs, a ∈ t := by
+      simp [Disk.persisted, Disk.specs, List.any_eq_true]
+    have r : (d.persisted a = true) ↔ ∃ t ∈ cur.specs, a ∈ t := by
+      simp [Disk.persisted, Disk.specs, hm, List.any_eq_true]
+    have := l.trans (h.trans r.symm)
+    cases h1 : ({ d with manifest := some (conjoinContents cs (conjoinedTable cs) cur) } : Disk).persisted a <;>
+      cases h2 : d.persisted a <;> simp_all
+  refine ⟨key, ?_, by simp [Disk.root, hm, conjoinContents]⟩
+  intro a ha b hb
+  rw [key] at ha ⊢
+  exact hclosed a ha b hb
+
 /-! ### the statement without the restriction, and why it is false -/
 
 /-- the statement without the `SafeAdds` restriction -/
